@@ -74,14 +74,29 @@ def rom_table(mem):
     return out
 
 
+_rom_undef = {}
+
+
 def rom_read(mem, addr):
+    """romdata[addr]; an address without data reads 0 when pad_with_zeros is set, otherwise the
+    real simulators refuse it - modelled as an unconstrained value per (rom name, address), so a
+    pass that loses pad_with_zeros (or data) is not equivalent."""
     tab = rom_table(mem)
     bw = mem.bitwidth
-    r = z3.BitVecVal(0, bw)
-    for a in sorted(tab):
-        if a < 2 ** mem.addrwidth:
-            r = z3.If(addr == a, z3.BitVecVal(tab[a] % (2 ** bw), bw), r)
-    return r
+    pad = bool(getattr(mem, 'pad_with_zeros', False))
+    r = None
+    for a in range(2 ** mem.addrwidth) if mem.addrwidth <= 10 else sorted(tab):
+        if a in tab:
+            v = z3.BitVecVal(tab[a] % (2 ** bw), bw)
+        elif pad:
+            v = z3.BitVecVal(0, bw)
+        else:
+            key = (mem.name, a, bw)
+            if key not in _rom_undef:
+                _rom_undef[key] = z3.BitVec('romundef_%s_%d_%d' % (mem.name, a, len(_rom_undef)), bw)
+            v = _rom_undef[key]
+        r = v if r is None else z3.If(addr == a, v, r)
+    return r if r is not None else z3.BitVecVal(0, bw)
 
 
 class Sym(object):
